@@ -49,6 +49,8 @@ def gen_tree(rng, tree_id, n=None, with_context=False, with_prevent=False, aimed
             elif r < 0.9:
                 nodes[j]["steps"].append(["resource", "res://%s/%d" % (tree_id, rng.randint(0, 3))])
                 nodes[j]["steps"].append(["call", f, c])
+                if (j + c) % 2:  # (no draw) the body looks at the same resource once more after the call
+                    nodes[j]["steps"].append(list(nodes[j]["steps"][-2]))
             else:
                 # hand the child a function value; the child calls it for one of its own later nodes
                 gl = [x for x in range(c + 1, n)]
